@@ -5,9 +5,20 @@ from harness import core, hist, l2
 
 
 def dates_monotone(case):
+    """local dates never decrease along ANY ordering by instant: rows with the same instant must have the same local
+    date (the sets are sorted by instant and ties keep table order, e.g. transfers before disposals in the balance replay)"""
     rows = sorted(case["ins"] + case["outs"] + case["intras"], key=lambda r: r["ts"][0])
-    days = [hist.local_day(r["ts"]) for r in rows]
-    return all(a <= b for a, b in zip(days, days[1:]))
+    prev_us, prev_lo, prev_hi = None, None, None
+    for r in rows:
+        us, d = r["ts"][0], hist.local_day(r["ts"])
+        if us == prev_us:
+            if d != prev_hi or d != prev_lo:
+                return False
+        else:
+            if prev_hi is not None and d < prev_hi:
+                return False
+            prev_us, prev_lo, prev_hi = us, d, d
+    return True
 
 
 def cut_prefix(case, T):
